@@ -621,6 +621,9 @@ pub struct QueryGenConfig {
     /// allow @recurse whose implicit coercion targets an interface unrelated to the edge target
     /// (listed finding KF-C21-recursion-coercion-to-unrelated-interface)
     pub allow_sideways_recursion: bool,
+    /// C09 "loose" mode: sometimes use any operator on any property and any tag as operand, whatever the types; the
+    /// frontend decides what is accepted (the harness's own annotator is not consulted for such queries)
+    pub loose_types: bool,
 }
 
 impl Default for QueryGenConfig {
@@ -635,6 +638,7 @@ impl Default for QueryGenConfig {
             allow_count_filter_under_optional: true,
             fold_bias: false,
             allow_sideways_recursion: false,
+            loose_types: false,
         }
     }
 }
@@ -907,6 +911,7 @@ fn gen_filter(
     }
     // tag argument?
     if c.chance(110) {
+        let loose_tag = ctx.cfg.loose_types && c.chance(90);
         let cands: Vec<GTag> = ctx
             .tags
             .iter()
@@ -914,7 +919,7 @@ fn gen_filter(
                 t.path.len() <= use_path.len()
                     && t.path[..] == use_path[..t.path.len()]
                     && t.def_vid <= use_vid
-                    && tag_compatible(op, pt, &t.ty, ctx.cfg)
+                    && (loose_tag || tag_compatible(op, pt, &t.ty, ctx.cfg))
             })
             .filter(|t| {
                 if ctx.cfg.allow_dup_import || t.path.len() == use_path.len() {
@@ -935,7 +940,7 @@ fn gen_filter(
             return Filter { op, arg: Some(Arg::Tag(t.name)) };
         }
     }
-    let vt = infer_var_type(op, pt).expect("binary operator");
+    let vt = infer_var_type(op, pt).unwrap_or_else(|| pt.clone());
     // reuse an existing variable of the same shape sometimes
     if c.chance(30) {
         let same: Vec<usize> =
@@ -1020,7 +1025,10 @@ fn gen_body(
                 }
             }
             // filters
-            let ops = ops_for(&pt, ctx.cfg);
+            let mut ops = ops_for(&pt, ctx.cfg);
+            if ctx.cfg.loose_types && c.chance(90) {
+                ops = crate::values::ALL_OPS.to_vec();
+            }
             let n_f = if c.chance(110) { 1 + c.chance(50) as usize } else { 0 };
             for _ in 0..n_f {
                 let f = gen_filter(ctx, c, &pt, &ops, vid, path);
@@ -1085,13 +1093,18 @@ fn gen_edge(
         let mut cs = CountSel::default();
         if want_count {
             let allow_filters = ctx.cfg.allow_count_filter_under_optional || !in_optional;
+            // one to three filters on the same count (pairs such as `>= $a` with `!= $b` interact in the early-exit code)
             let n_f = if allow_filters && c.chance(if ctx.cfg.fold_bias { 200 } else { 140 }) {
-                1 + c.chance(50) as usize
+                let two = c.chance(if ctx.cfg.fold_bias { 110 } else { 60 });
+                1 + two as usize + (two && c.chance(70)) as usize
             } else {
                 0
             };
             let int_ty = Ty::named("Int", false);
-            let ops = [Op::Eq, Op::Ne, Op::Lt, Op::Le, Op::Gt, Op::Ge, Op::OneOf, Op::NotOneOf];
+            let mut ops = vec![Op::Eq, Op::Ne, Op::Lt, Op::Le, Op::Gt, Op::Ge, Op::OneOf, Op::NotOneOf];
+            if ctx.cfg.loose_types && c.chance(60) {
+                ops = crate::values::ALL_OPS.to_vec();
+            }
             for _ in 0..n_f {
                 let f = gen_filter(ctx, c, &int_ty, &ops, vid, path);
                 cs.filters.push(f);
